@@ -545,3 +545,22 @@ Example ex_tree_runs :
   | Err _ => (0%nat, 0, 0, true)
   end = (3%nat, 3, 2, false).
 Proof. vm_compute. reflexivity. Qed.
+
+(* the separator hypothesis is needed: a name that contains "/" (impossible on a real file system,
+   possible for a key handed to Tree.add by a caller) is staged under one key and reloaded under
+   another - everything else of wf_tree holds for this tree *)
+Example sep_free_needed :
+  let t : wtree := [([], [([97;47;98], [120])])] in
+  NoDup (map fst (files t)) /\ collision_free (in_play md5_hex t) /\
+  match stage md5_hex [47;115] (walk_of [47;115] t) with
+  | Ok sg => match load (sg_store sg) (sg_oid sg) with
+             | Ok l => map e_key (sg_tree sg) = [[[97;47;98]]] /\ map e_key l = [[[97]; [98]]]
+             | Err _ => False
+             end
+  | Err _ => False
+  end.
+Proof.
+  split; [repeat constructor; simpl; intuition|].
+  split; [apply collision_freeb_sound; vm_compute; reflexivity|].
+  vm_compute. split; reflexivity.
+Qed.
